@@ -599,7 +599,7 @@ func (s HashizeInstr) Execute(env *Zlisp) error {
 		if expr == SexpMarker {
 			break
 		}
-		a = append(a, expr)
+		a = append([]Sexp{expr}, a...)
 	}
 	hash, err := MakeHash(a, s.TypeName, env)
 	if err != nil {
